@@ -338,6 +338,11 @@ class SymBool(object):
     __slots__ = ('z',)
     __is_sym__ = True
 
+    def __getattr__(self, name):
+        if hasattr(bool, name):
+            raise Unmodelled('bool.%s on a symbolic bool' % name)
+        raise AttributeError(name)
+
     def __init__(self, z):
         self.z = z
 
@@ -555,6 +560,11 @@ def _floatval_nofork(x):
 class SymInt(object):
     __slots__ = ('z',)
     __is_sym__ = True
+
+    def __getattr__(self, name):
+        if hasattr(int, name):
+            raise Unmodelled('int.%s on a symbolic int' % name)
+        raise AttributeError(name)
 
     def __init__(self, z):
         self.z = z
@@ -778,6 +788,11 @@ class SymFloat(object):
     |x/y| 2^-53 is below 1/|y|, the distance of a non-integral x/y from the nearest integer)."""
     __slots__ = ('iz', '_r', 'quot')
     __is_sym__ = True
+
+    def __getattr__(self, name):
+        if hasattr(float, name):
+            raise Unmodelled('float.%s on a symbolic float' % name)
+        raise AttributeError(name)
 
     def __init__(self, r=None, iz=None, quot=None):
         self._r = r
@@ -1393,6 +1408,42 @@ class SymStr(object):
 
     def encode(self, *a, **k):
         raise Unmodelled('str.encode')
+
+    def translate(self, table):
+        """str.translate with a dict table {ordinal: None | str | int}: keys mapped to None are grouped into ranges so a
+        deletion table costs one fork per range, other keys one fork each"""
+        if not isinstance(table, dict):
+            raise Unmodelled('str.translate with a non-dict table')
+        dele = sorted(k for k, v in table.items() if v is None)
+        ranges = []
+        for k in dele:
+            if ranges and ranges[-1][1] + 1 == k:
+                ranges[-1][1] = k
+            else:
+                ranges.append([k, k])
+        others = [(k, v) for k, v in table.items() if v is not None]
+        out = []
+        for c in self.cps:
+            if isinstance(c, int):
+                out.extend(cps_of(chr(c).translate(table)))
+                continue
+            if SymBool(in_ranges(c, ranges)):
+                continue
+            done = False
+            for k, v in others:
+                if SymBool(c == k):
+                    out.extend(cps_of(v) if isinstance(v, str) else [v])
+                    done = True
+                    break
+            if not done:
+                out.append(c)
+        return mkstr(out)
+
+    def __getattr__(self, name):
+        # a str method the proxy does not implement must never look like a missing attribute to the code under test
+        if hasattr(str, name):
+            raise Unmodelled('str.%s on a symbolic str' % name)
+        raise AttributeError(name)
 
     def format(self, *a, **k):
         raise Unmodelled('str.format')
